@@ -32,8 +32,16 @@ ASSUMPTIONS = ['real-valued semantics: a parameter draw at which the input expre
                'a case is decided only when the 30- and 60-digit evaluations agree (1e-8 relative); held: difference <= '
                '10 x error estimate; violated: difference > 1e4 x error estimate and > 1e-7 relative at two admissible '
                'parameter draws (expressions without parameters: the two precisions play the role of the two draws)',
-               'mpmath.limit / nsum results are used only when two sampling schemes agree and are consistent with far '
-               'samples / partial sums; everything else is counted inconclusive, never held',
+               'a draw at which the OUTPUT has no real value (log / even root of a negative number, division by exact zero) lies '
+               'outside the domain where both sides are real: such a call is counted inconclusive (output-outside-real-domain), '
+               'never held and never violated (principal-value conventions are not second-guessed)',
+               'limits: geometric sampling at doubled precision, accepted on direct convergence or on three agreeing Aitken '
+               'extrapolants; infinite sums: mpmath.nsum cross-checked against partial sums; LIM t->oo INT x:[a,t] f is evaluated '
+               'as the improper integral; everything else is counted inconclusive, never held',
+               'expressions without integrals / limits / sums / derivatives are compared at >= 5 draws (identities valid on a part '
+               'of the domain only), the others at >= 2',
+               'blame: when a top-level call is violated its nested non-identity calls are judged on demand and the innermost '
+               'violated call gives the mechanism key',
                'variables named n, m, k, summation indices and arguments of factorial / binom are drawn as integers',
                'user defined functions are unfolded from the FuncDefs visible in the context; lemmas used by '
                'ApplyEquation / ApplyInductHyp are premises: a draw at which the lemma is not numerically valid cannot convict',
@@ -45,7 +53,7 @@ REQUIRED = {'quick': {'recorded_steps_executed': 1300, 'top_calls_judged': 1500,
                       'aux_normalize_checked': 100, 'aux_deriv_checked': 100, 'aux_bounds_checked': 80,
                       'aux_bounds_samples': 10000, 'aux_printparse_checked': 500, 'oracle_calibration_ok': 1},
             'thorough': {'recorded_steps_executed': 1300, 'top_calls_judged': 5000, 'top_held': 3500, 'inner_calls_judged': 2000,
-                         'gen_cases': 4000, 'judged:Substitution': 500, 'judged:IntegrationByParts': 200,
+                         'gen_cases': 15000, 'judged:Substitution': 500, 'judged:IntegrationByParts': 200,
                          'judged:FullSimplify': 1500, 'judged:Equation': 300, 'judged:SplitRegion': 100,
                          'judged:ExpandPolynomial': 100, 'judged:Linearity': 100, 'judged:SubstitutionInverse': 100,
                          'judged:ApplyIdentity': 200, 'judged:DefiniteIntegralIdentity': 200,
@@ -503,6 +511,16 @@ def classify(fr, res, o_sh, conds, defs, deps, rng, budget):
                         'substitution %s is %s' % (O.show(g), mono)
                 if mono:
                     extra = 'substitution %s is %s' % (O.show(g), mono)
+        if icls == 'Substitution' and what == 'derivative-differs':
+            g = O.to_shadow(inner.var_subst)
+            ii = e if e[0] == 'II' else next((s for s in O.subterms(e) if s[0] == 'II'), None)
+            if ii is not None and monotonicity(g, ii[1], ('c', -7, 1), ('c', 7, 1), conds, defs, rng) == 'non-monotone':
+                return cls + ':inverse-branch-ignores-range', \
+                    'substitution %s is not injective; the antiderivative in the new variable is right on one branch only' % O.show(g)
+        if icls == 'DerivIntExchange' and what == 'value-changed':
+            d = e if e[0] == 'D' else None
+            if d is not None and d[2][0] == 'I' and (d[1] in O.free_vars(d[2][2]) or d[1] in O.free_vars(d[2][3])):
+                return cls + ':bounds-depend-on-differentiation-variable', 'Leibniz boundary terms are dropped'
         if icls == 'IntegrationByParts' and what == 'value-changed' and e[0] == 'I':
             u, v_ = O.to_shadow(inner.u), O.to_shadow(inner.v)
             uv = ('E', e[1], e[2], e[3], ('op', '*', u, v_))
@@ -720,8 +738,8 @@ def shards(tier, seed):
         bins[0][0] += k
         bins[0][1].append(n)
     out = [{'kind': 'recorded', 'files': sorted(b[1]), 'i': i} for i, b in enumerate(bins) if b[1]]
-    ngen = 4 if tier == 'quick' else 32
-    per = 90 if tier == 'quick' else 160
+    ngen = 4 if tier == 'quick' else 48
+    per = 90 if tier == 'quick' else 420
     out += [{'kind': 'gen', 'i': i, 'count': per} for i in range(ngen)]
     naux = 2 if tier == 'quick' else 8
     out += [{'kind': 'aux', 'i': i, 'count': 220 if tier == 'quick' else 600} for i in range(naux)]
@@ -771,7 +789,7 @@ def run_shard(vctx, spec):
         _, old = example_files()
         vctx.count('recorded_old_format_items_not_exercised', old)
     thorough = vctx.tier == 'thorough'
-    mon = Monitor(vctx, budget=3000000 if thorough else 500000, per_eval=500000 if thorough else 100000,
+    mon = Monitor(vctx, budget=1500000 if thorough else 500000, per_eval=300000 if thorough else 100000,
                   inner_cap=12 if thorough else 4, max_draws=5 if thorough else 4)
     mon.install()
     if spec['kind'] == 'recorded':
